@@ -29,6 +29,8 @@ def evaluate(spec):
     t = cs.get("tcp") or {}
     labels = [tlsref.VERSION_NAMES[conn.v], "kind:" + s.kind + ("+etm" if conn.etm else ""), "alg:" + s.alg, "seg:" + t.get("mode", "rec"),
               "v6" if ep["v6"] else "v4", "hist:%s" % ("0" if not hist else "1" if len(hist) == 1 else "2-5" if len(hist) <= 5 else "6+")]
+    if cs.get("hs_frag"):
+        labels.append("hs-flight-fragmented")
     if cs.get("abbreviated"):
         labels.append("abbreviated")
     if conn.v == tlsref.TLS13:
@@ -143,7 +145,7 @@ RULE = ("stage repo-samples: the repository's own captures of real TLS stacks mu
         "completes and at least one direction carries >= 2 application records (cipher state carried across records); distinct "
         "= distinct (version, suite, EtM, spec-without-seed hash)")
 ASSUMPTIONS = ["cryptography's primitive ciphers are correct (shared trusted base)",
-               "handshake messages are not fragmented across records; ClientHello/ServerHello start their record",
+               "ClientHello and ServerHello start a record and lie inside it; the rest of the server's flight may be fragmented across records (hs_frag 512..16384) - the client's flight is not",
                "captures are causal: during the handshake no TCP segment spans a change of direction",
                "not claimed by the property and not generated: compression, renegotiation, TLS 1.3 KeyUpdate/0-RTT/HRR, data after alert, 4-tuple reuse"]
 
